@@ -646,6 +646,8 @@ func step(line string) string {
 		return withWatchdog(func() string { return doShared(f) })
 	case f[0] == "ns" && len(f) >= 3:
 		return withWatchdog(func() string { return doNs(f) })
+	case f[0] == "hist" && len(f) == 5:
+		return withWatchdog(func() string { return doHist(f) })
 	}
 	return "bad-op"
 }
@@ -978,8 +980,11 @@ func genSweeps(w *bufio.Writer, r *hx.Rand) {
 func gen(w *bufio.Writer, n int) {
 	r := hx.NewRand(hx.SeedFromEnv())
 	genSweeps(w, r)
+	genHistSweep(w)
 	for i := 0; i < n; i++ {
-		switch k := r.Intn(20); {
+		switch k := r.Intn(22); {
+		case k >= 20:
+			genHist(w, r)
 		case k < 11:
 			genFs(w, r)
 		case k < 16:
